@@ -19,6 +19,8 @@ use serde::{Deserialize, Serialize};
 
 pub const NC: usize = 6; // contract id slots
 pub const NA: usize = 3; // asset id slots
+/// Input-contract index naming a contract that does not exist.
+pub const ABSENT_INPUT: u8 = 254;
 pub const NK: usize = 8; // storage key slots
 pub const OFF_CONTRACTS: u32 = 0;
 pub const OFF_ASSETS: u32 = OFF_CONTRACTS + (NC as u32) * 32; // 192
@@ -305,6 +307,12 @@ impl World {
             if let Some(id) = self.contract_ids.get(*i as usize) {
                 if !v.contains(id) {
                     v.push(*id);
+                }
+            } else if *i == ABSENT_INPUT {
+                // an input contract that was never deployed: the VM refuses the transaction
+                let id = ContractId::new([0xEE; 32]);
+                if !v.contains(&id) {
+                    v.push(id);
                 }
             }
         }
